@@ -506,11 +506,10 @@ static void cmdNum(const Msg& q, Msg& r) {
     std::string out;
     size_t i = 0;
     MemoryManager& mm = XalanMemMgrs::getDefaultXercesMemMgr();
-    while (i <= in.size()) {
+    while (i < in.size()) {      // every item is terminated by '\n'
         size_t j = in.find('\n', i); if (j == std::string::npos) j = in.size();
         std::string item = in.substr(i, j - i);
         i = j + 1;
-        if (item.empty() && i > in.size()) break;
         if (op == "d2s") { XalanDOMString s; NumberToDOMString(bits2d(item), s); out += u8(s); }
         else if (op == "d2c") { CharSink k; DOMStringHelper::NumberToCharacters(bits2d(item), k, &FormatterListener::characters); out += k.got; }
         else if (op == "s2d") { out += d2bits(DoubleSupport::toDouble(xs(unhex(item)), mm)); }
